@@ -65,6 +65,12 @@ def cases(draw):
                        'flags': [draw(st.sampled_from([1, 4])) for _ in range(nf)],
                        'rel': [draw(gen.logfloat(1e-3, 0.5)) for _ in range(nf)]})
     c['plants'] = plants
+    # cube packages: one more band may be given to fit() as a wavelength (a tabulated one) next to the named filters, and the
+    # cube may tabulate its apertures in pc or cm
+    if c['format'] == 'v2' and draw(st.booleans()):
+        c['mono_band'] = draw(st.integers(0, len(pkg['wav']) - 1))
+        c['mono_rel'] = draw(gen.logfloat(1e-3, 0.5))
+        pkg['cube_ap_unit'] = draw(st.sampled_from(['AU', 'pc', 'cm']))
     c['selector'] = draw(st.sampled_from([['A', 0], ['N', 1], ['N', 3], ['F', 6.], ['C', 1e31]]))
     # the parameter file is looked up by model NAME: its rows may be re-ordered after the convolved fluxes were built
     c['reorder_after'] = list(draw(st.permutations(list(range(len(pkg['names'])))))) if draw(st.booleans()) else None
@@ -161,6 +167,14 @@ def run_case(case, ctx):
         case['plants'] = [{'m': case['m'], 'av0': case['av0'], 'dist_pick': case.get('dist_pick', 0.), 'sc0': case.get('sc0', 0.),
                            'flags': case['flags'], 'rel': case['rel']}]
     names = pkg['names']
+    real_filters = filters
+    mono = case.get('mono_band') if fmt == 'v2' else None
+    if mono is not None:
+        w_ = mono % len(pkg['wav'])
+        filters = list(filters) + [{'name': None, 'central': pkg['wav'][w_], 'mono': w_}]
+        case = dict(case, filters=filters, theta=list(case['theta']) + [max(case['theta'])],
+                    plants=[dict(pl, flags=list(pl['flags']) + [1], rel=list(pl['rel']) + [case.get('mono_rel', 0.05)])
+                            for pl in case['plants']])
     nf = len(filters)
     float32 = fmt == 'v2'           # fit() memory-maps cube packages: float32 model fluxes
     labels = {'format_' + fmt, 'apdep' if pkg['apdep'] else 'not_apdep', 'storage_' + pkg['storage']}
@@ -170,7 +184,11 @@ def run_case(case, ctx):
     k = of.extinction_pattern(case['law']['wav'], case['law']['chi'], [f['central'] for f in filters])
     from props.c06 import stored
     spkg = stored(pkg, fmt)
-    conv = [convpkg.reference_convolved(spkg, f)[0] for f in filters]       # conv[j][model][aperture]
+    conv = [convpkg.reference_convolved(spkg, f)[0] for f in real_filters]       # conv[j][model][aperture]
+    if mono is not None:
+        conv.append([[row[w_] for row in mod] for mod in spkg['flux']])
+        labels.add('one_band_given_as_wavelength')
+        labels.add('cube_apertures_in_' + pkg.get('cube_ap_unit', 'AU'))
     if any(v <= 0. for cj in conv for row in cj for v in row):
         return labels | {'zero_flux_filter_skipped'}, False
     lo, hi = case['av_range']
@@ -200,7 +218,7 @@ def run_case(case, ctx):
         os.mkdir(mdir)
         convpkg.emit(pkg, mdir, fmt)
         with must_succeed('convolve_model_dir'), quiet():
-            convolve_model_dir(mdir, [convpkg.filter_object(f) for f in filters])
+            convolve_model_dir(mdir, [convpkg.filter_object(f) for f in real_filters])
         if case.get('reorder_after') is not None:
             pkgio.write_parameters(mdir, names, pkg['params'], order=case['reorder_after'], gz=bool(pkg.get('par_gz')))
             labels.add('parameter_rows_reordered_after_convolution')
@@ -209,7 +227,8 @@ def run_case(case, ctx):
                                                        p['src']['flux'], p['src']['err']) for p in plants])
         out = os.path.join(d, 'out.fitinfo')
         with must_succeed('fit()'), quiet():
-            fit(data, [f['name'] for f in filters], np.array(case['theta']) * u.arcsec, mdir, out, n_data_min=1,
+            fit(data, [f['name'] if f.get('mono') is None else f['central'] * u.micron for f in filters],
+                np.array(case['theta']) * u.arcsec, mdir, out, n_data_min=1,
                 extinction_law=gen.law_object(case['law']), av_range=[lo, hi], distance_range=dr,
                 output_format=tuple(case['selector']), output_convolved=False)
         with must_succeed('reading the fit output'):
